@@ -23,18 +23,23 @@
    ConvTree.v extends the Accept half to WHOLE SUBCOMMAND TREES (any number of subcommands with
    aliases at every level, the alternative combinator picking the branch whose name stands first on
    the line) -- C01_sentences_accepted_tree.
-   ConvSound.v proves the CONVERSE for flat levels: every vector the grammar specifies (neither a
-   help request nor an ambiguous short cluster) is parsed to Ok v exactly when it is a sentence
-   denoting v -- C01_flat_complete; what the grammar rejects is never parsed (C01_flat_rejected_never_ok):
-   an item reads backwards to exactly its own occurrences, or leaves one of them behind, and what
-   the scan rejects (unknown name, name without value, stray value, word without a positional) is a
-   token no field can remove.  With C01_flat_total the rejected vectors end in an error message or
-   a help document, never in a panic.
-   NOT proved (decided per run by conformance testing of the implementation against `denote`):
-   the Reject half for levels WITH subcommands beyond unknown names. *)
+   ConvSound.v and ConvTreeSound.v prove the CONVERSE, for flat levels and for whole subcommand
+   trees whose command names are plain (non-empty, no leading dash -- `plain_cmds`, decidable):
+   every vector the grammar specifies (neither a help request nor an ambiguous short cluster nor an
+   option of an enclosing level right of a command name) is parsed to Ok v exactly when it is a
+   sentence denoting v -- C01_flat_complete, C01_tree_complete; what the grammar rejects is never
+   parsed (C01_flat_rejected_never_ok, C01_tree_rejected_never_ok).  An item reads backwards to
+   exactly its own occurrences, or leaves one of them behind; what the scan rejects (unknown name,
+   name without value, stray value, word without a positional or that is no command) is a token no
+   field can remove; the fields take whole occurrences only (a value still on the line has its key
+   still on the line), so the first token they leave is a key or the command word the scan stopped
+   at -- and a key is never taken for a command (TokOs.v: the text the tokenizer records for an
+   option starts with a dash or is empty); the subcommand's own parser is judged by induction.
+   With C04_total_without_adjacent the rejected vectors end in an error message or a document,
+   never in a panic.  This is the full statement of the property for the conventional fragment. *)
 From Coq Require Import List Bool.
 From BpafModel Require Import Conv.
-From BpafLemmas Require Import Tac EvalEq Find Reach Ledger NoLoss C05Lemmas OkReach OkLaws ConvLaws AbsSim AbsTotal ConvRefine ConvTotal ConvChain ConvTree ConvSound.
+From BpafLemmas Require Import Tac EvalEq Find Reach Ledger NoLoss C05Lemmas OkReach OkLaws ConvLaws AbsSim AbsTotal ConvRefine ConvTotal ConvChain ConvTree ConvSound ConvTreeSound.
 Import ListNotations.
 
 (* every sentence of a flat level, in every spelling and order the grammar admits, is accepted and
@@ -91,6 +96,21 @@ Theorem C01_flat_rejected_never_ok :
   forall v, run_inner feat env (compile_options (Level items tail)) None argv <> OutOk v.
 Proof. exact denote_reject_flat. Qed.
 Print Assumptions C01_flat_rejected_never_ok.
+
+(* both directions for whole subcommand trees with plain command names *)
+Theorem C01_tree_complete :
+  forall feat env l argv v,
+  tree_ok l -> plain_cmds l = true -> denote l argv <> Unspecified ->
+  (denote l argv = Accept v <-> run_inner feat env (compile_options l) None argv = OutOk v).
+Proof. exact denote_complete_tree. Qed.
+Print Assumptions C01_tree_complete.
+
+Theorem C01_tree_rejected_never_ok :
+  forall feat env l argv,
+  tree_ok l -> plain_cmds l = true -> denote l argv = Reject ->
+  forall v, run_inner feat env (compile_options l) None argv <> OutOk v.
+Proof. exact denote_reject_tree. Qed.
+Print Assumptions C01_tree_rejected_never_ok.
 
 (* every vector, sentence or not: the outcome is a value, a help/version document or an error
    message -- never a panic outcome, never fuel exhaustion *)
